@@ -67,8 +67,8 @@ type loopAn struct {
 
 // manual table: loops whose progress is semantic.  Keyed function#ordinal.
 var manualLoops = map[string]string{
-	"fc.ParseList#1":      "callback loop: the step function consumes a token or panics (not decidable here: nullable analysis through higher-order parameters)",
-	"fc.ParseList2#1":     "callback loop: next/one consume a token or panic (same assumption)",
+	"fc.ParseList#1":      "callback loop: progress is the obligation C16.f2 — every function bound to the step returns a state advanced by at least one token or panics (discharged at every binding site by the ADV analysis)",
+	"fc.ParseList2#1":     "callback loop: progress is the obligation C16.f2 — the step or the separator function advances at every binding site (ADV analysis)",
 	"fc.scanSpaceToken#1": "outer loop: each true disjunct of its guard is consumed by the corresponding inner step (blanks, tabs, block comment, line comment); its end-of-input exit is checked mechanically",
 	"fc.nextToken#1":      "SPACE-skipping loop: a SPACE token has positive length (previous entry), so tk.end() strictly increases; scanTokenAt returns EOF at the end",
 }
